@@ -177,7 +177,7 @@ class Ctx:
             out[idx] = self.real(name + ''.join('_%d' % i for i in idx))
         return out
 
-    def draw(self, kind, shape=(), **params):
+    def draw(self, kind, shape=(), /, **params):
         """A scripted random draw: fresh symbols constrained to the support."""
         rp = getattr(self, '_replay_pos', None)
         if rp is not None and rp < len(self.draws):
@@ -1489,7 +1489,7 @@ class ConcreteCtx:
             out[idx] = self._val(name + ''.join('_%d' % i for i in idx))
         return out
 
-    def draw(self, kind, shape=(), **params):
+    def draw(self, kind, shape=(), /, **params):
         rp = getattr(self, '_replay_pos', None)
         if rp is not None and rp < len(self.draws):
             old = self.draws[rp]
@@ -1630,7 +1630,26 @@ def _ctx_prove_close(self, name, a, b, tol=1e-9, scale=None, info=None, timeout_
     if ob['verdict'] == 'unsat':
         return ob
     ob_exact = self.obligations.pop()
-    ob = self.prove(name, all_close(a, b, tol, scale), timeout_ms=timeout_ms, info=info)
+    goal = all_close(a, b, tol, scale)
+    if self._sqrt or self._inv:
+        # tolerance query on the normal forms of the differences (r*r -> radicand etc.), so that the
+        # monomial relaxation sees polynomials in the bounded inputs only
+        from . import poly
+        nd = []
+        okn = True
+        for x, y in zip(a.ravel(), b.ravel()):
+            d = x - y
+            if isinstance(d, SymReal):
+                t = poly.normalized_term(self, d.t)
+                if t is None:
+                    okn = False
+                    break
+                nd.append(SymReal(t))
+            else:
+                nd.append(d)
+        if okn:
+            goal = all_close(np.array(nd, dtype=object), np.zeros(len(nd)), tol, scale)
+    ob = self.prove(name, goal, timeout_ms=timeout_ms, info=info)
     ob['exact_verdict'] = ob_exact['verdict']
     ob['ms'] += ob_exact['ms']
     if ob['verdict'] == 'sat':
